@@ -37,6 +37,34 @@ def check(params, globs, prefix):
     last_ord = max([am[p.name].index for p in phys if not p.name.startswith('__edb_arg_')], default=0)
     first_extra = min([am[p.name].index for p in phys if p.name.startswith('__edb_arg_')], default=10 ** 9)
     if last_ord > first_extra: return 'an extracted constant parameter precedes an ordinary one'
+    if prefix is None and not globs:
+        msg = check_unused_vars(params, am)
+        if msg: return msg
+    return None
+
+def check_unused_vars(params, am):
+    """the REAL clauses.fini_toplevel on a statement that mentions only some of the parameters: every physical parameter of the argmap must appear in the
+    final statement -- in the text or in the `__unused_vars` CTE -- cast as a value of its own type, and nothing else may"""
+    from edb.pgsql import ast as pgast
+    from edb.pgsql.compiler import clauses as cl
+    phys = [p for p in params if not p.sub_params]
+    for used_mask in ((False,) * len(phys), tuple(i % 2 == 0 for i in range(len(phys)))):
+        used_idx = [am[p.name].index for p, u in zip(phys, used_mask) if u]
+        stmt = pgast.SelectStmt(target_list=[pgast.ResTarget(val=pgast.ParamRef(number=i)) for i in used_idx])
+        env = types.SimpleNamespace(named_param_prefix=None, query_params=list(params), check_ctes=[], type_rewrites={}, type_ctes={}, )
+        ctx = types.SimpleNamespace(argmap=am, env=env)
+        saved = cl.scan_check_ctes, cl.insert_ctes, cl.pg_types.pg_type_from_ir_typeref
+        cl.scan_check_ctes = lambda *a, **k: None; cl.insert_ctes = lambda *a, **k: None; cl.pg_types.pg_type_from_ir_typeref = lambda t, **k: ('t',)
+        try: cl.fini_toplevel(stmt, ctx)
+        finally: cl.scan_check_ctes, cl.insert_ctes, cl.pg_types.pg_type_from_ir_typeref = saved
+        declared = []
+        for cte in (stmt.ctes or []):
+            if cte.name == '__unused_vars':
+                for t in cte.query.target_list: declared.append(t.val.arg.number)
+        want = sorted(am[p.name].index for p, u in zip(phys, used_mask) if not u)
+        if sorted(declared) != want:
+            return 'statement using parameters %r of argmap %r: the __unused_vars CTE declares $%r, expected exactly the unused physical parameters $%r' % (
+                used_idx, {k: v.index for k, v in am.items()}, sorted(declared), want)
     return None
 
 def main():
